@@ -44,11 +44,20 @@ def all_adj(n):
         yield a
 
 
-def target_state(adj, rep):
+def target_state(adj, rep, order=None):
+    """QuantumState of |adj>; with `order` (a permutation of the labels) the graph object lists its nodes in that insertion order:
+    position k carries label order[k] — graphiq's convention is qubit k = k-th node of G.nodes, so the state is the same |adj>"""
     import networkx as nx
     from graphiq.state import QuantumState
 
-    g = nx.from_numpy_array(adj)
+    if order is None:
+        g = nx.from_numpy_array(adj)
+    else:
+        g = nx.Graph()
+        g.add_nodes_from(order)
+        n = adj.shape[0]
+        g.add_edges_from((order[i], order[j]) for i in range(n) for j in range(i + 1, n) if adj[i, j])
+        assert list(g.nodes()) == list(order)
     st = QuantumState(g, rep_type="g")
     if rep != "g":
         st.convert_representation(rep)
@@ -65,17 +74,19 @@ def graph_canon(adj, ne):
     return tu.span_canon(x, z, np.zeros(n + ne, dtype=int))
 
 
-def check_graph(ctx, res, drv, adj, rep, backend, SC, DC, pending):
+def check_graph(ctx, res, drv, adj, rep, backend, SC, DC, pending, order=None, light=False):
     from graphiq.metrics import Infidelity
     from graphiq.solvers.time_reversed_solver import TimeReversedSolver
 
     n = adj.shape[0]
     iso = bool((adj.sum(axis=0) == 0).any())
     inp = {"adjacency": tu.bits(adj), "n": n, "target_rep": rep, "backend": backend}
+    if order is not None:
+        inp["node_order"] = ",".join(map(str, order))
     res.evaluations += 1
     res.count("sizes", f"n={n}" if n <= 6 else "n>6")
     try:
-        target = target_state(adj, rep)
+        target = target_state(adj, rep, order)
         comp = (SC if backend == "stab" else DC)()
         comp.measurement_determinism = 1
         solver = TimeReversedSolver(target=target, metric=Infidelity(target), compiler=comp)
@@ -113,7 +124,9 @@ def check_graph(ctx, res, drv, adj, rep, backend, SC, DC, pending):
     for name, C in (("stab", SC), ("dm", DC)):
         if name == "dm" and ne + np_ > (6 if ctx.quick else 8):
             continue
-        for det in (0, 1, "p"):
+        if light and name == "dm":
+            continue
+        for det in (("p",) if light else (0, 1, "p")):
             comp = C()
             comp.measurement_determinism = "probabilistic" if det == "p" else det
             sc = Script([ctx.rng.randrange(2) for _ in range(4 * len(toks) + 4)])
@@ -225,6 +238,35 @@ def run(ctx, budget=1.0):
         check_graph(ctx, res, drv, adj, rng.choice(["g", "s"]), "stab", SC, DC, pending)
         if len(pending) > 20:
             flush(res, drv, pending)
+    # graph objects whose node insertion order is not the sorted label order (qubit k = k-th node of G.nodes everywhere in graphiq):
+    # all graphs on 3 vertices x all orders, then random ones
+    scr = [(adj, list(o)) for adj in all_adj(3) for o in itertools.permutations(range(3)) if list(o) != [0, 1, 2]]
+    for _ in range(int((30 if ctx.quick else 300) * budget)):
+        n = rng.randrange(4, 8)
+        g = nx.gnp_random_graph(n, rng.uniform(0.3, 0.9), seed=rng.getrandbits(30))
+        scr.append((nx.to_numpy_array(g).astype(int), rng.sample(range(n), n)))
+    for adj, order in scr:
+        if (adj.sum(axis=0) == 0).any():
+            continue
+        check_graph(ctx, res, drv, adj, "g", "dm" if (adj.shape[0] <= 4 and rng.random() < 0.3) else "stab", SC, DC, pending, order=order,
+                    light=adj.shape[0] > 3)
+        if len(pending) > 20:
+            flush(res, drv, pending)
+    # many more targets that need three or more emitters (dense graphs on 7..10 vertices), in light mode: real solver + exact
+    # comparison with the solver model + the verified validator on the returned circuit + one compile on the stabilizer backend;
+    # the rarely taken sign-dependent branches of the final emitter clean-up (inverse_circuit) are only reached here
+    n_light = 0
+    for _ in range(int((160 if ctx.quick else 4000) * budget)):
+        n = rng.randrange(6, 11)
+        g = nx.gnp_random_graph(n, rng.uniform(0.35, 0.8), seed=rng.getrandbits(30))
+        adj = nx.to_numpy_array(g).astype(int)
+        if (adj.sum(axis=0) == 0).any():
+            continue
+        check_graph(ctx, res, drv, adj, "s" if rng.random() < 0.5 else "g", "stab", SC, DC, pending, light=True)
+        n_light += 1
+        if len(pending) > 40:
+            flush(res, drv, pending)
+    res.extra["light_targets"] = n_light
     if not ctx.quick:
         for _ in range(20):
             n = rng.randrange(14, 31)
